@@ -85,12 +85,14 @@ def st_kern(draw, N1):
 def _noise_opts(draw):
     o = {}
     k = draw(st.sampled_from(["default", "noise", "noise", "noise_factor"]))
+    # an explicit 0.0 is a legal value of every additive noise option (a reaction declared exact: the documented
+    # system keeps only the numerical epsilon on that diagonal entry); it must not be read as "option absent"
     if k == "noise":
-        o["noise"] = draw(lfloat(2e-3, 0.3))
+        o["noise"] = 0.0 if _pick(draw, 6) == 5 else draw(lfloat(2e-3, 0.3))
     elif k == "noise_factor":
-        o["noise_factor"] = draw(lfloat(0.1, 10.0))
+        o["noise_factor"] = 0.0 if _pick(draw, 6) == 5 else draw(lfloat(0.1, 10.0))
     if _pick(draw, 4) == 3:
-        o["noise_rel_factor"] = draw(lfloat(1e-3, 0.1))
+        o["noise_rel_factor"] = 0.0 if _pick(draw, 6) == 5 else draw(lfloat(1e-3, 0.1))
     if _pick(draw, 4) == 3:
         o["weight"] = draw(lfloat(0.25, 16.0))
     return o
